@@ -64,7 +64,12 @@ func (r *Reader) readIloc(b *box) (err error) {
 		ilb.items = make([]ilocEntry, 0, ilb.count)
 	}
 
-	for i := 0; i < len(buf); {
+	// fixed part of an entry: id, [construction method], data reference index, [base offset], extent count
+	entryHeaderSize := 2 + 2 + int(ilb.baseOffsetSize) + 2
+	if b.flags.version() > 0 {
+		entryHeaderSize += 2
+	}
+	for i := 0; i+entryHeaderSize <= len(buf); {
 		var ent ilocEntry
 		ent.id = itemID(bmffEndian.Uint16(buf[i : i+2]))
 		i += 2
@@ -85,6 +90,10 @@ func (r *Reader) readIloc(b *box) (err error) {
 		ent.count = bmffEndian.Uint16(buf[i : i+2])
 		i += 2
 
+		// the first extent must be inside the box
+		if ent.count > 0 && i+int(ilb.offsetSize)+int(ilb.lengthSize) > len(buf) {
+			break
+		}
 		for j := 0; j < int(ent.count); j++ {
 			var ol offsetLength
 			if j == 0 {
@@ -145,6 +154,11 @@ func uintN(size uint8, buf []byte) uint64 {
 	case 8:
 		return bmffEndian.Uint64(buf[:8])
 	default:
-		panic("error here")
+		// sizes other than 0, 4 and 8 are not defined by ISO/IEC 14496-12; read what fits
+		var v uint64
+		for _, c := range buf {
+			v = v<<8 | uint64(c)
+		}
+		return v
 	}
 }
